@@ -17,12 +17,16 @@ Streams (three-way, DESIGN 5.C02)
            exact, TypeError <-> none, on the same inputs - validates the specification
   argbind  the direct oracle on argument binding: run the program, Script.infer on every
            parameter / element of *args / value of **kwargs; functions, methods, lambdas
+  flow     (props/c02_flow.py, gen/flowprog.py) the direct oracle on random programs with loops,
+           generator functions, nested blocks, closures, comprehensions, with/try, descriptors,
+           magic methods: executed, then Script.infer at every probe the run reached
 """
 import common
 from common import short
 from gen import pycore as P
+from props import c02_flow
 
-MODELS = ['PyCore', 'ArgBind']
+MODELS = ['PyCore', 'ArgBind', 'FlowCache']
 LEAN_TARGETS = ['JediModel.Props.C02', 'JediModel.Drivers.C02']
 MANIFEST = dict(
     text='Theorem may_sound_partial over Model/PyCore: for every program of the pure core (literals, names, tuples, '
@@ -45,10 +49,28 @@ MANIFEST = dict(
          'bind_agrees_old_code_witness: with the *args/**kwargs names in param_dict (the source before the repair, '
          '`def f(**kw)` / `f(kw=A)`) the statement is false; bind_best_effort, bindJ_total, '
          'bind_without_push_back_loses_keyword, bind_source_is_modelled. '
-         'Tie: the real function = bindJ and CPython = bindPy, both exact, on all small signatures x calls.',
+         'Tie: the real function = bindJ and CPython = bindPy, both exact, on all small signatures x calls. '
+         'Loop unrolling (Model/FlowCache): unrolled_loop_sound - for every body of an unrolled generator for loop '
+         '(assignments from the loop variable / earlier locals / constants, nested in any if/for statements), every '
+         'yielded local, every sequence of values and every initial cache, the per-node cache decision of '
+         'infer_node/_infer_node_if_inferred (transcribed, instantiated with the facts the translator reads from '
+         'syntax_tree.py and function.py:get_yield_lazy_values) never serves a result of an earlier iteration: the '
+         'inferred values are the yielded values, element by element; unrolled_loop_mention_rule_witness / '
+         'unrolled_loop_direct_cache_witness: weakening either bypass rule loses the second value (kernel-checked); '
+         'flow_source_is_modelled. '
+         'Stream flow (direct oracle, no model): random terminating programs with for loops, generator functions with '
+         'yields behind nested for/if/with/try blocks and intermediate locals, closures, lambdas, comprehensions, '
+         'containers, decorators, property/staticmethod/classmethod, __getitem__/__call__/__iter__/__enter__/__add__, '
+         'augmented assignment, isinstance - executed with every probe recording the set of run-time classes, then '
+         'Script.infer at every reached probe: every run-time class is reported; exactly that class where one '
+         'creation site reaches the probe through straight code.',
     note='Modelled not verified: only the PyCore fragment is under the theorem (no loops, attribute writes outside __init__, '
          'generators, decorators, containers other than tuples, multi-module). The pretty-printer of the harness '
-         'and the name<->index mapping are trusted. Outside the fragment: nothing is claimed.',
+         'and the name<->index mapping are trusted. Outside the fragment: nothing is claimed by a theorem; the stream '
+         'flow judges loops / generators / closures / descriptors by the direct oracle only (CPython is the ground '
+         'truth; probes on which jedi hits a documented give-up limit or raises are counted, not judged). '
+         'Model/FlowCache covers the cache decision under predefined names for straight assignment chains, not '
+         'the inference of the right-hand sides themselves.',
     technique='Lean 4 proof (abstract interpretation soundness by simulation) + three-way differential correspondence',
     design='5.C02')
 
@@ -537,6 +559,7 @@ def programs(ctx):
 def run(ctx):
     from concurrent.futures import ThreadPoolExecutor
     from gen import argbind as A
+    flow = c02_flow.start(ctx)          # stream `flow` runs in worker processes meanwhile
     progs = programs(ctx)
     encs = [encode(p) for p in progs]
     reqs = [{'op': 'run', 'prog': e[0], 'fuel': FUEL} for e in encs]
@@ -630,6 +653,7 @@ def run(ctx):
         'come from harness/gen/pycore.py and harness/props/c02.py:encode (trusted)',
         'CPython is the ground truth for evalC; jedi for mayE',
     ]
+    c02_flow.finish(ctx, flow)
 
 
 WITNESSES = [
@@ -644,6 +668,8 @@ WITNESSES = [
 
 
 def replay(ctx, payload):
+    if payload.get('stream') == 'flow':
+        return c02_flow.replay(ctx, payload)
     import jedi
     inp = payload['input']
     print(inp['source'])
